@@ -115,8 +115,8 @@ theorem C10_prc_finder (stale : FinderState) (signal : List Int) (warm maxP : Na
 
 /-! ### site 2 — `QLPC_ERROR_BUFFER` (`coding.rs` `estimated_qlpc`, `lpc.rs` `compute_error`) -/
 
-/-- The residual buffer handed to `encode_residual` is that of the stateless `computeError`,
-whatever the re-used vector contained and however long it was. -/
+/-- The residual buffer (handed to `encode_residual` if the flag is set) and the flag are those of the
+stateless `computeError`, whatever the re-used vector contained and however long it was. -/
 theorem C10_qlpc_errors (stale : List Int) (coefs : List Int) (shift : Nat) (signal : List Int) :
     qlpcErrors stale coefs shift signal = computeError coefs shift signal :=
   qlpcErrors_eq stale coefs shift signal
@@ -249,12 +249,13 @@ example :
 /-- Site 1, negative control: `SimdVec::resize` alone keeps the stale lanes readable. -/
 example : ((sv 3 13).resize 20 zeroV).asRef = List.replicate 20 13 := by decide
 
-/-- Site 2: stale buffer longer and shorter than the 7-sample signal, both arithmetic paths. -/
+/-- Site 2: stale buffer longer and shorter than the 7-sample signal, both arithmetic paths (on the `i64`
+path the exact error at `t = 2` is `3276634470`: the wrapped value is stored, the flag is `false`). -/
 example :
-    qlpcErrors (List.replicate 12 5) [2, -1] 0 [1, 2, 4, 7, 11, 16, 22] = some [0, 0, 1, 1, 1, 1, 1] ∧
-    qlpcErrors [5, 5] [2, -1] 0 [1, 2, 4, 7, 11, 16, 22] = some [0, 0, 1, 1, 1, 1, 1] ∧
+    qlpcErrors (List.replicate 12 5) [2, -1] 0 [1, 2, 4, 7, 11, 16, 22] = some ([0, 0, 1, 1, 1, 1, 1], true) ∧
+    qlpcErrors [5, 5] [2, -1] 0 [1, 2, 4, 7, 11, 16, 22] = some ([0, 0, 1, 1, 1, 1, 1], true) ∧
     qlpcErrors (List.replicate 12 5) [32767, -32767] 0 [100000, 2, 4, 7, 11, 16, 22]
-      = some [0, 0, -1018332826, -65527, -98290, -131052, -163813] := by
+      = some ([0, 0, -1018332826, -65527, -98290, -131052, -163813], false) := by
   decide
 
 /-- Site 2, negative control: without `errors.fill(0)` the stale cells would enter the result. -/
